@@ -217,7 +217,9 @@ def build_and_run(prop, sites, jobs, report, replay_fn=None, parallel=8):
     if os.environ.get('VERIF_DEV_NO_KANI'):
         return None          # development aid only (never set by the registered commands)
     name = f'kani-{prop}'
-    with locked(name):
+    # one scratch copy per property: serialised, unless this process was given a scratch root of its own (parallel development runs)
+    lockname = name + ('-' + re.sub(r'\W+', '_', os.environ['VERIF_SCRATCH']) if os.environ.get('VERIF_SCRATCH') else '')
+    with locked(lockname):
         scratch = sync_scratch(name)
         overlay(scratch, sites)
         crate = os.path.join(scratch, 'crates/anemo')
